@@ -198,6 +198,7 @@ package netty
 //@   ensures fresh: result != nil && fresh(result)
 //@   ensures fields: result.pipeline == p && result.handler == handler && result.prev == prev && result.next == next
 //@   ensures casts: castsOK(result)
+//@ property C03 C12
 //@ field handlerContext.handler immutable newHandlerContext
 //@ field handlerContext.pipeline immutable newHandlerContext
 //@ field handlerContext.cast2Active immutable newHandlerContext
@@ -207,6 +208,19 @@ package netty
 //@ field handlerContext.cast2Inactive immutable newHandlerContext
 //@ field handlerContext.cast2Event immutable newHandlerContext
 //@ field handlerContext.* constructed_by newHandlerContext
+// C12: contexts and pipelines are read by every goroutine that fires an event; nothing in them is
+// written after construction except the list links (pipeline mutation while events flow is outside
+// the statement): a new mutable field needs a discipline
+//@ property C12 C03
+//@ field handlerContext.* covered
+//@ field handlerContext.prev unprotected
+//@ field handlerContext.next unprotected
+//@ field pipeline.* covered
+//@ field pipeline.head unprotected
+//@ field pipeline.tail unprotected
+//@ field pipeline.size unprotected
+//@ field pipeline.channel unprotected
+//@ property C03
 
 //@ func NewPipeline
 //@   after exit ghostset node(q, i) = ite(q == as(result, *pipeline), ite(i == 0, as(result, *pipeline).head, as(result, *pipeline).tail), node(q, i))
@@ -557,20 +571,23 @@ package netty
 //@   ensures sync_channel_does_not_wait: implies(evres(0, 0) && old(c.writeQueue) == nil, count("load c.running") == 0 && count("time.Sleep") == 0)
 //@   ensures waits_for_sender: implies(evres(0, 0) && old(c.writeQueue) != nil && old(c.untilWrite), evis(first("net.Conn.Close") - 2, "load c.running") && evres(first("net.Conn.Close") - 2, 0) == 0)
 //@   ensures observes_queue_empty_then_idle@C06: implies(evres(0, 0) && old(c.writeQueue) != nil && old(c.untilWrite), evis(first("net.Conn.Close") - 3, "len c.writeQueue") && evres(first("net.Conn.Close") - 3, 0) == 0)
+//@   ensures close_error_stored_as_closeError@C11: implies(evres(0, 0), is(evarg(first("Store"), 1), closeError))
 //@   ensures error_published_before_cancel@C11_C12: implies(evres(0, 0), count("Store") == 1 && first("Store") < first("context.CancelFunc"))
 //@ order (*channel).Close: "cas c.closed" dominates "net.Conn.Close"
 
 //@ property C01 C02 C05 C06 C07 C09 C10 C11 C12 C18
+//@ methods channelWriter: Write
 //@ func (*channel).loadCloseErr
 //@   requires c != nil && c.ctx != nil
 //@   modifies nothing
 //@   ensures one_atomic_load: nemitted() == 1 && evis(0, "Load")
 //@   ensures error_once_the_context_is_done@C11: implies(chclosed(ctxdone(c.ctx)), result != nil)
+//@   ensures error_once_close_has_stored_it@C11: implies(avstored(addr(&c.closeErr)) && avtype(addr(&c.closeErr)) == typeid(closeError), result != nil)
 
 // The background sender. One activation owns the sender token (running == 1) from its start
 // until it stores idle; it drains the queue in FIFO batches.
 //@ spec func bufInv(c *channel) bool = c.writeBuffers != nil && c.recycleBuffers != nil && cap(c.writeBuffers) == cap(c.recycleBuffers) && cap(c.writeBuffers) >= 1 && arrof(c.writeBuffers) != arrof(c.recycleBuffers) && cap(c.writeBuffers) == cap(c.writeQueue)/2 + 1
-//@ property C01 C02 C05 C06 C07 C09 C10 C12 C18
+//@ property C01 C02 C05 C06 C07 C09 C10 C11 C12 C18
 //@ func (*channel).writeOnce
 //@   requires asyncInv(c) && bufInv(c)
 //@   modifies all
@@ -594,7 +611,7 @@ package netty
 //@   loop 2 decreases len(recycleBuffers) - rangeindex
 //@   ensures flush_release_recheck: implies(count("netty.channel.Close") == 0, count("store c.running") == 1 && evis(last("store c.running") - 1, "Transport.Flush") && evis(last("store c.running") + 1, "len c.writeQueue") && evarg(last("store c.running"), 0) == 0)
 //@   ensures exit_when_empty_or_other_owner: implies(count("netty.channel.Close") == 0, (evres(last("store c.running") + 1, 0) == 0 && nemitted() == last("store c.running") + 2) || (evres(last("store c.running") + 1, 0) > 0 && evis(nemitted()-1, "cas c.running") && !evres(nemitted()-1, 0) && nemitted() == last("store c.running") + 3))
-//@   ensures only_close_tears_down@C05_C07: count("net.Conn.Close") == 0 && count("context.CancelFunc") == 0 && count("Pipeline.FireChannelInactive") == 0
+//@   ensures only_close_tears_down@C05_C07: count("net.Conn.Close") == 0 && count("context.CancelFunc") == 0 && count("Pipeline.FireChannelInactive") == 0 && count("cas c.closed") == 0 && count("store c.closed") == 0
 //@   ensures failure_releases_then_closes: implies(count("netty.channel.Close") == 1, evis(nemitted()-1, "netty.channel.Close") && evis(nemitted()-2, "store c.running") && evarg(nemitted()-2, 0) == 0 && evarg(nemitted()-1, 0) == c && evarg(nemitted()-1, 1) != nil)
 //@ cellfresh (*channel).writeOnce: after "pbytes.Put" argument 0
 //@ order (*channel).writeOnce: "BuffersWriter.Writev" dominates "pbytes.Put"
@@ -910,6 +927,7 @@ package netty
 // that moment (guarded fields are re-read at the lock: other threads' updates become visible there,
 // so posts speak about the values held at the END of the critical section = the final ones here).
 //@ func (*bootstrap).removeListener
+//@   event
 //@   requires bs != nil
 //@   ensures unregisters: nemitted() == 1 && evis(0, "Delete") && evarg(0, 0) == &bs.listeners
 //@ func (*listener).Close
@@ -972,6 +990,7 @@ package netty
 //@   loop 0 invariant cfg: lsnInv(l) && acceptor != nil && options != nil && options.Context != nil
 //@   loop 0 invariant ctx_derived: ctxdone(options.Context) == ctxdone(l.bs.bootstrapOptions.bootstrapCtx)
 //@   loop 0 invariant accept_then_serve: implies(nemitted() > 0, nemitted() == 2 && evis(0, "Acceptor.Accept") && evrecv(0) == acceptor && evres(0, 1) == nil && evis(1, "netty.bootstrap.ServeChannel") && evarg(1, 1) == options.Context && evarg(1, 2) == evres(0, 0) && evarg(1, 4) == true)
+//@   ensures never_unregisters: count("netty.bootstrap.removeListener") == 0 && count("Delete") == 0
 //@   ensures listens_first: evis(0, "netty.listener.listen") && implies(evres(0, 2) != nil, nemitted() == 1 && result == evres(0, 2))
 //@   ensures ends_on_accept_error: implies(evres(0, 2) == nil, last("Acceptor.Accept") == nemitted()-3 && evres(nemitted()-3, 1) != nil && evrecv(nemitted()-3) == evres(0, 0))
 //@   ensures server_closed_after_shutdown: implies(evres(0, 2) == nil && chclosed(ctxdone(old(l.bs.bootstrapOptions.bootstrapCtx))), result == ErrServerClosed)
